@@ -32,6 +32,17 @@ class _Function(object):
     self.context_name = None
 
 
+def _all_symbols(node):
+  """All the identifiers used anywhere under node, nested functions included."""
+  symbols = set()
+  for n in ast.walk(node):
+    if isinstance(n, ast.Name):
+      symbols.add(n.id)
+    elif isinstance(n, ast.arg):
+      symbols.add(n.arg)
+  return symbols
+
+
 class FunctionTransformer(converter.Base):
   """Wraps function bodies around malt-specific boilerplate."""
 
@@ -57,8 +68,10 @@ class FunctionTransformer(converter.Base):
             'ag__.autograph_artifact(l)', l=node)
 
       scope = anno.getanno(node, anno.Static.SCOPE)
-      function_context_name = self.ctx.namer.new_symbol('lscope',
-                                                        scope.referenced)
+      # The scope name is also used inside nested functions and lambdas, so
+      # it must avoid their symbols (e.g. their parameters) too.
+      function_context_name = self.ctx.namer.new_symbol(
+          'lscope', scope.referenced | _all_symbols(node))
       fn_scope.context_name = function_context_name
       anno.setanno(node, 'function_context_name', function_context_name)
 
@@ -79,8 +92,10 @@ class FunctionTransformer(converter.Base):
     with self.state[_Function] as fn_scope:
       scope = anno.getanno(node, annos.NodeAnno.BODY_SCOPE)
 
-      function_context_name = self.ctx.namer.new_symbol('fscope',
-                                                        scope.referenced)
+      # The scope name is also used inside nested functions and lambdas, so
+      # it must avoid their symbols (e.g. their parameters) too.
+      function_context_name = self.ctx.namer.new_symbol(
+          'fscope', scope.referenced | _all_symbols(node))
       fn_scope.context_name = function_context_name
       anno.setanno(node, 'function_context_name', function_context_name)
 
